@@ -25,6 +25,9 @@ import (
 // parent from GORACE log_path files) and (2) equality of every goroutine's
 // results with a sequential pre-computation.
 
+// c19SharedOpt: one FoldOption value used by many goroutines at once.
+var c19SharedOpt = gotype.Folders(foldRegA)
+
 type c19Pair struct {
 	t     reflect.Type
 	v     reflect.Value
@@ -211,7 +214,13 @@ func c19Round(c *run.C) {
 				var rw mon.CountingWriter
 				var opts []gotype.FoldOption
 				if g%2 == 0 {
-					opts = append(opts, gotype.Folders(foldRegA))
+					// the option VALUE is shared by these goroutines (it is no
+					// instance of anything); a quarter of them pass a second
+					// Folders option after it
+					opts = append(opts, c19SharedOpt)
+					if g%4 == 0 {
+						opts = append(opts, gotype.Folders(foldRegE))
+					}
 				}
 				rit, err := gotype.NewIterator(codec.JSON.NewVisitor(&rw, codec.JSONOpts{}), opts...)
 				if err != nil {
@@ -351,6 +360,7 @@ func c19Round(c *run.C) {
 		if cfg == 0 {
 			opts = append(opts, gotype.Folders(foldRegA))
 		}
+		// (regT holds no regE: the second option of some goroutines changes nothing for it)
 		if err := gotype.Fold(regV.Interface(), codec.JSON.NewVisitor(&rw, codec.JSONOpts{}), opts...); err != nil {
 			c.Violationf("concurrent-error", "sequential:fold-registered", "sequential fold failed: %v", err)
 			return
